@@ -50,6 +50,7 @@ pub struct TState {
     chunk_i: usize,
     chunk_then: usize,
     short_writes: Vec<usize>,
+    hello_version: Option<(u8, u8)>,
     sw_i: usize,
     pub pending: Vec<u8>,
     nread: u64,
@@ -130,6 +131,9 @@ impl TState {
             chunk_i: 0,
             chunk_then: t["then"].as_u64().unwrap_or(0) as usize,
             short_writes: usz(&t["short_writes"]),
+            hello_version: t["hello_version"].as_array().map(|a| {
+                (a[0].as_u64().unwrap_or(3) as u8, a[1].as_u64().unwrap_or(1) as u8)
+            }),
             sw_i: 0,
             pending: Vec::new(),
             nread: 0,
@@ -289,6 +293,14 @@ impl TState {
                 if t.conn.wants_write() {
                     let mut buf = Vec::new();
                     let _ = t.conn.write_tls(&mut buf);
+                    // "hello_version": the record-layer version of the first record (the ClientHello); it is
+                    // not part of the handshake transcript: 0x0301 (rustls, OpenSSL), 0x0303 (RFC 8446, JSSE)
+                    if t.produced == 0 && buf.len() >= 3 && buf[0] == 0x16 {
+                        if let Some(v) = self.hello_version {
+                            buf[1] = v.0;
+                            buf[2] = v.1;
+                        }
+                    }
                     t.produced += buf.len();
                     self.tls_out.extend_from_slice(&buf);
                 } else {
